@@ -27,6 +27,8 @@ func C10(r *core.Report) {
 	c10IdentityChain(r)
 	c10MetadataKeys(r)
 	c10GsfaVersionGate(r)
+	c10AssertGates(r)
+	r.Floor("C10.R6", 7)
 	r.Floor("C10.R5", 3)
 	r.Floor("C10.R1", 8)
 	r.Floor("C10.R2", 10)
@@ -275,6 +277,19 @@ func c10MetadataKeys(r *core.Report) {
 			if sel, ok := n.(*ast.SelectorExpr); ok && strings.HasPrefix(sel.Sel.Name, "MetadataKey_") {
 				set[sel.Sel.Name] = true
 			}
+			// one level of repository accessors (db.GetKind() reads MetadataKey_Kind)
+			if c, ok := n.(*ast.CallExpr); ok {
+				if fn := core.Callee(f.Pkg.TypesInfo, c); fn != nil {
+					if cal := p.ByObj[fn.Origin()]; cal != nil && cal.Body != nil && len(cal.Body.List) <= 3 {
+						ast.Inspect(cal.Body, func(m ast.Node) bool {
+							if sel, ok := m.(*ast.SelectorExpr); ok && strings.HasPrefix(sel.Sel.Name, "MetadataKey_") {
+								set[sel.Sel.Name] = true
+							}
+							return true
+						})
+					}
+				}
+			}
 			return true
 		})
 		var out []string
@@ -487,5 +502,95 @@ func c10GsfaVersionGate(r *core.Report) {
 	})
 	if !found {
 		r.OK(rule, ne.Key+"#gsfa-identity-unconditional", posP(r, ne.Pos()), "no version gate in front of the gsfa identity comparison")
+	}
+}
+
+// c10AssertGates (C10.R6): the identity chain rests on Metadata.AssertIndexKind / AssertEpoch / AssertRootCid /
+// AssertNetwork. Each returns nil only when the recorded value equals the expected one - an equality that is known on
+// the nil return, with no disjunct that lets an empty or absent recorded value through - and getDefaultMetadata fails
+// when the kind, epoch or root CID entry is missing from the header.
+func c10AssertGates(r *core.Report) {
+	const rule = "C10.R6"
+	p := r.Prog
+	for _, name := range []string{"AssertIndexKind", "AssertEpoch", "AssertRootCid", "AssertNetwork"} {
+		f := r.Anchor(rule, "indexes.(*Metadata)."+name)
+		if f == nil {
+			continue
+		}
+		info := f.Pkg.TypesInfo
+		g := p.Graph(f)
+		x := f.ParamObj(0)
+		bad := ""
+		n := 0
+		for _, rn := range g.Returns() {
+			if nilErr, dec := isNilErrReturn(f, rn); !dec || !nilErr {
+				continue
+			}
+			n++
+			ok := false
+			for _, fc := range g.FactsAt(rn) {
+				if fc.Tag != nil || x == nil || !core.Mentions(info, fc.Expr, x) {
+					continue
+				}
+				if isEqualityTest(info, fc.Expr) && assertsEqual(info, fc.Expr, fc.Truth) {
+					ok = true
+				}
+			}
+			if !ok {
+				bad = p.Rel(rn.Ast.Pos())
+			}
+		}
+		r.Check(n > 0 && bad == "", rule, f.Key+"#nil-only-on-equality", posP(r, f.Pos()), "returns nil only when the recorded value equals the expected one",
+			"returns nil at "+bad+" without the recorded value being known equal to the expected one (e.g. when it is empty): an index without that identity entry passes the check")
+	}
+	if gd := r.Anchor(rule, "indexes.getDefaultMetadata"); gd != nil {
+		info := gd.Pkg.TypesInfo
+		g := p.Graph(gd)
+		for _, key := range []string{"MetadataKey_Kind", "MetadataKey_Epoch", "MetadataKey_RootCid"} {
+			// the ok flag of the read of this key; its false outcome must lead to error returns only
+			var okObj types.Object
+			var at *core.GNode
+			for _, node := range stmtNodes(g) {
+				as, isA := node.Ast.(*ast.AssignStmt)
+				if !isA || len(as.Rhs) != 1 || len(as.Lhs) != 2 {
+					continue
+				}
+				reads := strings.Contains(core.ExprStr(as.Rhs[0]), key)
+				if c, isC := core.Unparen(as.Rhs[0]).(*ast.CallExpr); isC && !reads {
+					if fn := core.Callee(info, c); fn != nil {
+						if cal := p.ByObj[fn.Origin()]; cal != nil && cal.Body != nil && len(cal.Body.List) <= 3 && strings.Contains(core.ExprStr(cal.Body), key) {
+							reads = true
+						}
+					}
+				}
+				if reads {
+					okObj, at = core.ObjOf(info, as.Lhs[1]), node
+				}
+			}
+			k := fmt.Sprintf("%s#missing-%s-is-an-error", gd.Key, key)
+			if okObj == nil {
+				r.Violation(rule, k, posP(r, gd.Pos()), "the "+key+" entry of the header is not read with a presence flag")
+				continue
+			}
+			required := false
+			for _, e := range g.Nodes {
+				if e.Kind != core.KEdge || e.Ast == nil || !g.Dominates(at, e) {
+					continue
+				}
+				ex := core.Unparen(e.Ast.(ast.Expr))
+				absent := false
+				if id, isId := ex.(*ast.Ident); isId && info.Uses[id] == okObj && !e.Truth {
+					absent = true
+				}
+				if u, isU := ex.(*ast.UnaryExpr); isU && u.Op == token.NOT && core.ObjOf(info, u.X) == okObj && e.Truth {
+					absent = true
+				}
+				if absent && leadsToErrorOnly(g, gd, e) {
+					required = true
+				}
+			}
+			r.Check(required, rule, k, pos(r, at.Ast), "a header without the "+key+" entry is refused",
+				"a header without the "+key+" entry is accepted: the index then carries no such identity and every comparison against it is vacuous")
+		}
 	}
 }
